@@ -72,6 +72,22 @@ def power_patterns(tier):
             ["Power", ["Add", const(1)], ["Reciprocal", X]], ["Power", const(2), const(3)], ["Power", const(-2), const(2)],
             ["Power", ["Negation", X], const(2)], ["Power", ["Negation", X], Y], ["Power", const(2), ["Multiply", X, Y]],
             ["Power", const(2), ["Add", X, Y]]]
+    # a general power whose BASE is a compound with a constant (of either sign, symbolic) at each position: distributing the power over the
+    # base is only right for positive factors
+    for cv in (-2, 2, -1, ["sym", "c1"]):
+        for ex in (Y, const(1.5), const(0.5), const(-2.5)):
+            out.append(["Power", ["Multiply", X, const(cv)], ex])
+            out.append(["Power", ["Multiply", const(cv), X, Z], ex])
+            out.append(["Power", ["Divide", X, const(cv)], ex])
+            out.append(["Power", ["Divide", const(cv), X], ex])
+        out.append(["Power", ["Add", X, const(cv)], Y])
+        out.append(["Power", ["Negation", ["Multiply", X, const(cv)]], Y])
+        out.append(["Power", ["Multiply", ["Negation", X], const(cv)], const(1.5)])
+        out.append(["Power", ["NthPower", ["Multiply", X, const(cv)], 3], Y])
+        out.append(["Power", ["NthRoot", ["Multiply", X, const(cv)], 3], Y])
+    out += [["Power", ["Multiply", ["Negation", X], ["Negation", Y]], Z], ["Power", ["Multiply", X, Y], Z], ["Power", ["Multiply", X, X], Y],
+            ["Power", ["Divide", ["Negation", X], ["Negation", Y]], Z], ["Power", ["Reciprocal", ["Negation", X]], Y],
+            ["Power", ["Negation", ["Negation", X]], Y], ["Power", ["Minus", X, Y], ["Multiply", const(2), Z]]]
     return out
 
 
